@@ -200,6 +200,18 @@ CLAIMED['C09'] = (
     'jobs); add-on / S-DAC-GT / SUTRA / HIP-RA-X writers and rich output not covered; values within 1e-12 of a rounding boundary skipped; known finding F25',
     'Lean 4 theorems over a formatting / table model + exact string differential of every specified report figure against the live model')
 
+CLAIMED['C10'] = (
+    'Lean theorems over a character-level model of the client parser (substring marker with indentation, set.pop() as an arbitrary choice, deletion of the label and of '
+    'blank runs, unit rule, number parser, table rows split on blank runs): any choice of matching line gives the same field when the matching lines agree (so the '
+    'structure cannot depend on the hash seed); the answer is always read off a line carrying the marker; a table row round-trips through the splitter for ANY column '
+    'widths (overflowing figures cannot shift or drop a cell); kernel-evaluated examples and an ambiguity witness. Tie: on every generated report the real GeophiresXResult '
+    'is compared with an independent tokenisation (value, unit, every cell of every profile table, row counts), with the Lean model on the same lines (the real answer must '
+    'be the single candidate over all choices), with itself under three PYTHONHASHSEEDs, its CSV export with its own result entry by entry, and the JSON written next to '
+    'the report with the report figures of the quantities both carry.',
+    'string-valued fields compared by presence only; the JSON comparison covers the scalar quantities of C09\'s label specification; known finding F28 (stimulation cost '
+    'missing from the JSON); F27 (add-on outputs overwrote the base outputs in the JSON) fixed in /repo',
+    'Lean 4 theorems over a parser model + exact differential of the real client against independent tokenisation, the Lean model, hash seeds, CSV and JSON')
+
 CLAIMED['C08'] = (
     'Lean refinement proof over the client state machine (cwd, argv, cache, files; operations request / rewrite / chdir), for every finite history '
     'incl. failing requests and rewrites between calls: the outputs of the (repaired) client equal those of a cache-free, history-free specification '
